@@ -81,10 +81,14 @@ class Adversary(object):
         self.seen = len(fr)
         self.drain()
 
-    def to_state(self, state):
-        ''' bring X into `state` cooperatively; returns False when not reachable '''
+    def to_state(self, state, early=None):
+        ''' bring X into `state` cooperatively; returns False when not reachable.
+        `early`: a bundle the application queues before any session exists. '''
         x, sim = self.x, self.sim
         sim.start(x)
+        if early is not None:
+            sim.send(x, early)
+            self.own = [early]
         if state == 'pre_contact':
             self.drain()
             return True
@@ -169,7 +173,8 @@ def run_case(chk, rng, passive, state, seq, cuts):
         cfg['modulate'] = rng.choice([0.001, 1.0])     # adaptive segment size: ACK handling has more to do
     adv = Adversary(rng, passive, cfg)
     x, sim = adv.x, adv.sim
-    if not adv.to_state(state):
+    early = bytes(range(20)) if state in ('pre_contact', 'in_contact') and rng.random() < 0.5 else None
+    if not adv.to_state(state, early=early):
         return None
     mark = len(sim.log)
     wire_before = len(adv.frames())
@@ -204,6 +209,17 @@ def run_case(chk, rng, passive, state, seq, cuts):
                 if state == 'await_ack' or True:
                     adv.send({'k': 'xfer_ack', 'flags': m['flags'], 'tid': m['tid'], 'len': adv.cum[m['tid']]})
         for _ in range(10):
+            adv.coop()
+    elif early is not None and not x.closed():
+        # the peer now completes the hand-shake properly and acknowledges: the early bundle must go through
+        init = {'k': 'sess_init', 'keepalive': 0, 'seg_mru': 2 ** 64 - 1, 'xfer_mru': 2 ** 64 - 1, 'node': b'dtn://peer/'.hex(), 'ext': ''}
+        if passive:
+            if state == 'pre_contact':
+                adv.send({'k': 'contact', 'flags': 0})
+            adv.coop()
+            if not x.closed() and x.h._state != 'established':
+                adv.send(init)
+        for _ in range(12):
             adv.coop()
     else:
         for _ in range(3):
@@ -269,6 +285,9 @@ def judge(chk, adv, mark, wire_before, own, label, seqnames, state):
                     bad.append(('C17:delivered-data-mismatched', 'transfer %d delivered with %d octets differing from what was sent for it' % (t, len(have))))
     # own transfers unaffected (unless the peer legitimately refused them or terminated the session)
     refused = any(n in ('refuse_own', 'ack_own_end_early', 'sess_term', 'sess_term_reply', 'sess_init_again') for n in seqnames)
+    if state in ('pre_contact', 'in_contact'):
+        # before the session exists none of these is legitimate: they are rejected and change nothing
+        refused = x.h._state != 'established'
     if own and not refused and not x.closed():
         succ = [int(tm.arg(a[0])) for (_i, _n, a) in tm.signals(sim, x.name, 'send_bundle_finished') if tm.arg(a[2]) == 'success']
         if sorted(succ) != list(range(1, len(own) + 1)):
